@@ -1,5 +1,7 @@
 """C14 - tracked world stays self-consistent under any object update / kill history.
-Model: coq/theories/Obj/SceneGraph.v (extracted, run by coq/ocaml/c14_driver.ml).
+Model: coq/theories/Obj/SceneGraph.v (extracted, run by coq/ocaml/c14_driver.ml); reference semantics of the "exactly the
+objects announced and not since killed / unloaded" clause: coq/theories/Obj/SceneGraphRef.v (ref_step, extracted too; driver
+lines prefixed "REF "), transcribed literally by class Spec below.
 
 Universe: regions 1,2 are registered (real handles 123,124), region 3 is a handle nobody registered (999);
 local ids 1..4 (0 = no parent); full ids 1..5 (UUID(int=f)); small values v for the non-structural fields.
@@ -41,36 +43,55 @@ TRUSTED = [
     "not modelled: Object fields other than LocalID/FullID/ParentID/RegionHandle/PCode==AVATAR/CRC/UpdateFlags/Position.X/"
     "Name/Velocity-is-set, the Avatar/coarse-location bookkeeping, the viewer object cache hit path (_lookup_cache_entry "
     "returns None; ProxySettings.ALLOW_AUTO_REQUEST_OBJECTS is switched off so no timers are started), session teardown "
-    "(ClientWorldObjectManager.clear), region handle changes of a registered region, materials, ObjectPropertiesFamily",
+    "(ClientWorldObjectManager.clear), region handle changes of a registered region, materials, ObjectPropertiesFamily; the "
+    "generated messages give OwnerID (the one unmodelled field carried both by compressed updates and by ObjectProperties) the "
+    "same zero value in every message kind, so that 'a reply that changes nothing' means the same in model and code",
     "PROVED in Coq for all histories (Qed, closed; Props/C14.v, Obj/SceneGraphProofs.v, SceneGraphTree.v, SceneGraphKill.v, "
-    "SceneGraphFut.v, SceneGraphNoErr.v, SceneGraphRef.v): (1) the index clause of the statement (Idx: lookup by local id and by "
-    "full id agree and hold the same objects), (2) the children clause (c in children(p) <-> c tracked, parent_id c = lid p, same "
-    "region, p tracked; duplicate-free), the orphan clause (c in orphans[p] <-> c tracked, parent_id c = p <> 0, p untracked; "
-    "duplicate-free) and the Parent back-link (obj.Parent is the tracked object with local id obj.ParentID in obj's region, None "
-    "otherwise; it names exactly the object whose children list holds obj) as step-preserved invariants for EVERY event kind: "
-    "ObjectUpdate/ObjectUpdateCompressed (new object with orphan adoption, re-parenting, local-id change, region move), terse, "
-    "cached, properties, KillObject with its full cascade (descendants die, avatars survive as orphans, unknown id with orphans), "
-    "region teardown, track region, the three request kinds; hence after every history; (3) pending requests: unconditionally no "
-    "request is dropped, re-keyed or reopened and a done request is never touched again; KillObject only cancels and leaves no "
-    "pending request for the killed id nor for any object removed by the cascade; ObjectUpdate(Compressed) resolves every pending "
-    "UPDATE request of its (region, local id) with that object and cancels those under the id the object moved away from; "
-    "property / terse updates that change something resolve; teardown cancels; history-level forms; (4) no handler raises: "
+    "SceneGraphFut.v, SceneGraphNoErr.v, SceneGraphRef.v, SceneGraphRefProofs.v): (1) the index clause of the statement (Idx: lookup "
+    "by local id and by full id agree and hold the same objects), (2) the children clause (c in children(p) <-> c tracked, parent_id "
+    "c = lid p, same region, p tracked; duplicate-free), the orphan clause (c in orphans[p] <-> c tracked, parent_id c = p <> 0, p "
+    "untracked; duplicate-free) and the Parent back-link (obj.Parent is the tracked object with local id obj.ParentID in obj's "
+    "region, None otherwise; it names exactly the object whose children list holds obj) as step-preserved invariants for EVERY "
+    "event kind: ObjectUpdate/ObjectUpdateCompressed (new object with orphan adoption, re-parenting, local-id change, region move), "
+    "terse, cached, properties, KillObject with its full cascade (descendants die, avatars survive as orphans, unknown id with "
+    "orphans), region teardown, track region, the three request kinds; hence after every history; (3) pending requests: "
+    "unconditionally no request is dropped, re-keyed or reopened and a done request is never touched again; KillObject only cancels "
+    "and leaves no pending request for the killed id nor for any object removed by the cascade; ObjectUpdate(Compressed) resolves "
+    "every pending UPDATE request of its (region, local id) with that object and cancels those under the id the object moved away "
+    "from; property / terse updates that change something resolve; teardown cancels; history-level forms; (4) no handler raises: "
     "under Idx, Tree, the input assumptions and acyclic parent links (a ranking of (region, local id) keys with every object "
     "strictly below its ParentID key) every step returns Some - no assert of _parent_object/track_object/untrack_object fires, no "
     "KeyError/AttributeError-on-None, and the kill fuel (tracked objects + 1) suffices; hence such a history runs to its end with "
-    "Idx and Tree; (5) towards the reference set: objects enter the lookup only by being announced into a tracked region, leave "
-    "only through a KillObject of their region or the teardown of their region, an announced object is tracked afterwards, "
-    "KillObject removes the object it names, teardown removes exactly the region's objects, every tracked object was announced.  "
+    "Idx and Tree; (5) THE EXACT REFERENCE SET (C14_reference_exact, _exact_set, _local_lookup, _exact_nokill, C14_step_reference, "
+    "C14_kill_reference, C14_kill_closed, C14_doomed_exact): ref_set h (Obj/SceneGraphRef.v) is a flat recursive function over the "
+    "history that mentions no local-id index, child list or orphan list - live full ids with (region, local id, parent id, avatar?) "
+    "and the tracked regions; an update into a tracked region announces, a later update moves / re-parents, KillObject (r, l) of a "
+    "tracked region removes every live object of r whose walk up the parent ids reaches l through non-avatar objects (the object at "
+    "l dies even if it is an avatar, avatars sitting on a dying object are spared with everything on them, parent id 0 = none; fuel "
+    "= live objects + 1), teardown unloads the region - and after every history inside input_full_ok the model's full-id lookup "
+    "equals ref_set h as a finite map, its local-id lookup is the reference's at(), i.e. both lookups contain EXACTLY the reference "
+    "tuples; for kill-free histories input_idx_ok alone suffices; the step form holds from any related pair of states (KillObject "
+    "needs Idx, Tree and acyclic parent links in the state it arrives in, every other kind only Idx).  Proof: every handler keeps "
+    "(lid, full id, region, parent id, avatar?) of all other objects; the kill cascade removes a set that is sound and complete "
+    "w.r.t. the parent links (through the recursion, with the generalised invariant TreeG and a set of detached objects), and under "
+    "a ranking of the parent links any such set is the one the walk-up test decides.  "
     "Hypotheses (input_tree_ok): updates name a tracked region; no local id given to two live objects; an object is not "
     "(re)indexed under a local id equal to the parent id it carries at that moment (1-cycle; for a local-id change inside a region "
     "this is the OLD parent id - an extra hypothesis beyond the statement, a proof gap that the correspondence exercises: the code "
-    "passes through a state where the object is its own child); for (4) also: KillObject/teardown/track/request name a registered "
-    "region (the message comes from a known circuit)",
-    "NOT PROVED in Coq (checked by the correspondence + impl-level oracle only): the exact reference-set equality "
-    "(abs (run h) = reference h): that KillObject removes exactly the named object and its descendants through non-avatar links "
-    "and nothing else (proved only: it removes objects of its region only, removes the named object, survivors keep local id / "
-    "full id / region); the local-id-change case new local id = old parent id (all clauses); that a reply which changes "
-    "no property leaves its request pending is the code's behaviour and is modelled, not judged",
+    "passes through a state where the object is its own child); for (4) and (5) also: KillObject/teardown/track/request name a "
+    "registered region (the message comes from a known circuit) and parent links are acyclic in every state an event arrives in",
+    "TIE of the reference: harness Spec (this file) is the literal Python transcription of ref_at / doomed / ref_kill / ref_step; the "
+    "'reference' correspondence suite compares, after every step of every generated history, the extracted ref_step, Spec and the "
+    "real _fullid_lookup / _region_managers as strings (three-way), so the reference that generates and judges the histories is "
+    "itself tied to the Coq definition and to the code; Spec.input_ok (the generator-side check of the statement's assumption: lid "
+    "uniqueness and no parent cycle, evaluated on the flat reference state) is NOT a transcription of the Coq predicates "
+    "input_full_ok / acyclic, which are stated on model states - the harness only needs it to be no weaker than what the theorems "
+    "assume on the strict kinds, and the model-vs-code suite does not depend on it",
+    "NOT PROVED in Coq (checked by the correspondence + impl-level oracle only): the local-id-change case new local id = old parent "
+    "id for histories that also contain a KillObject (all clauses; kill-free histories are covered for the reference set by "
+    "C14_reference_exact_nokill); the reference-set equality outside 'updates name a tracked region' when kills are present (it "
+    "holds on the known-finding witness, C14_untracked_region_reference, but Idx, which the kill argument needs, fails there); that "
+    "a reply which changes no property leaves its request pending is the code's behaviour and is modelled, not judged",
     "the full statement is false of the faithful model outside the hypothesis 'updates name a tracked region': witness proved as "
     "C14_untracked_region_refuted and recorded as known finding c14-untracked-region; the histories of the three repaired "
     "defects (0de120a, 7f5640d, 4cb9d70) are kept in corpus/C14/findings.txt and must pass",
@@ -208,6 +229,11 @@ class Impl:
             val["ID"] = l
             val["PCode"] = tmpls.PCode.AVATAR if a else tmpls.PCode.PRIMITIVE
             val["CRC"] = v
+            # OwnerID is carried by compressed updates AND by ObjectProperties; the model abstracts the ObjectProperties
+            # fields by Name alone, so every message kind must carry the same (zero) OwnerID, as ObjectUpdate /
+            # ObjectProperties built with fill_missing do - otherwise a properties reply after a compressed update
+            # "changes" OwnerID and resolves a request the model leaves pending (harness artifact found by the thorough tier)
+            val["OwnerID"] = UUID(int=0)
             val["Position"] = Vector3(float(v), 2.0, 3.0)
             val["Rotation"] = Quaternion(0.0, 0.0, 0.0, 1.0)
             val["AngularVelocity"] = Vector3(0.0, 0.0, 0.0)
@@ -410,23 +436,32 @@ def run_impl(hist, loop):
 # independent reference semantics of the statement ("announced and not since killed/unloaded") + input assumption
 
 class Spec:
-    """Flat reference model: which objects are live and where.  No indices, no child lists."""
+    """Flat reference model: which objects are live and where.  No indices, no child lists.
+
+    LITERAL TRANSCRIPTION of coq/theories/Obj/SceneGraphRef.v (refst / ref_at / doomed / ref_kill / ref_step); the Coq
+    theorem C14_reference_exact proves that the model's full-id lookup equals this after every history inside the
+    assumptions, and the "reference" correspondence suite compares the extracted ref_step with this class and with the
+    real managers after every step.  `live` is the association list rf_live: aset = delete the key and put the new
+    entry at the head, so iteration is newest-first (only observable when two live objects share a (region, local id),
+    i.e. outside the statement's assumption)."""
 
     def __init__(self, strict=False):
-        self.live = {}                 # full -> dict(r, l, p, a)
-        self.tracked = set()
+        self.live = {}                 # full -> dict(r, l, p, a)   (rf_live; dict order = reversed list order)
+        self.tracked = set()           # rf_tracked
         # strict: additionally stay inside the hypotheses of the Coq theorem C14_step_wf (excludes the finding classes)
         self.strict = strict
 
+    def _aset(self, f, rec):
+        self.live.pop(f, None)
+        self.live[f] = rec
+
     def at(self, r, l):
-        for f, o in self.live.items():
+        """ref_at: the live object announced at (region, local id)"""
+        for f in reversed(list(self.live)):
+            o = self.live[f]
             if o["r"] == r and o["l"] == l:
                 return f
         return None
-
-    def indexed(self, f):
-        """is the live object expected in its region's local-id index?  (region currently tracked)"""
-        return self.live[f]["r"] in self.tracked and self.live[f].get("idx", True)
 
     def input_ok(self, e):
         """The statement's assumption: no local id given to two live objects, no parent cycle."""
@@ -455,25 +490,39 @@ class Spec:
             return True
         return True
 
+    def doomed(self, fuel, r, l, o):
+        """doomed: does KillObject (r, l) remove o?  Walk up the parent ids."""
+        if fuel == 0:
+            return False
+        if o["r"] != r:
+            return False
+        if o["l"] == l:
+            return True               # the killed id itself (even an avatar)
+        if o["a"] or o["p"] == 0:
+            return False              # avatars are spared by the cascade; parent id 0 = no parent
+        if o["p"] == l:
+            return True
+        g = self.at(r, o["p"])
+        return g is not None and self.doomed(fuel - 1, r, l, self.live[g])
+
     def kill(self, r, l):
+        """ref_kill"""
         if r not in self.tracked:
             return      # objects of a region that is not tracked are not indexed by local id (by design)
-        f = self.at(r, l)
-        kids = [g for g, o in self.live.items() if o["r"] == r and o["p"] == l and g != f and not o["a"]]
-        for g in kids:
-            if g in self.live:
-                self.kill(r, self.live[g]["l"])
-        if f is not None:
-            self.live.pop(f, None)
+        fuel = len(self.live) + 1
+        dead = [f for f, o in self.live.items() if self.doomed(fuel, r, l, o)]
+        for f in dead:
+            del self.live[f]
 
     def step(self, e):
+        """ref_step"""
         k = e[0]
         if k in ("F", "C", "D"):
             _, r, l, f, p, a, v = e[:7]
             if f in self.live:
-                self.live[f].update(r=r, l=l, p=p, a=bool(a))
+                self._aset(f, dict(r=r, l=l, p=p, a=bool(a)))      # announced again: moved / re-parented
             elif r in self.tracked:
-                self.live[f] = dict(r=r, l=l, p=p, a=bool(a))
+                self._aset(f, dict(r=r, l=l, p=p, a=bool(a)))
         elif k == "K":
             self.kill(e[1], e[2])
         elif k == "X":
@@ -483,6 +532,23 @@ class Spec:
                 del self.live[f]
         elif k == "R":
             self.tracked.add(e[1])
+
+    def observe(self):
+        """same format as ref_observe of coq/ocaml/c14_driver.ml"""
+        objs = ["%d(r%d l%d p%d %s)" % (f, o["r"], o["l"], o["p"], "av" if o["a"] else "pr") for f, o in sorted(self.live.items())]
+        return "L[%s] T[%s]" % (" ".join(objs), ",".join(str(r) for r in sorted(self.tracked)))
+
+
+def impl_ref_observe(impl):
+    """the full-id lookup and the tracked regions of the real managers, in the format of Spec.observe"""
+    rinv = {123: 1, 124: 2, 999: 3}
+    w = impl.world
+    objs = []
+    for fid, o in sorted(w._fullid_lookup.items(), key=lambda kv: kv[0].int):
+        objs.append("%d(r%d l%d p%d %s)" % (fid.int, rinv.get(o.RegionHandle, 9), o.LocalID, o.ParentID or 0,
+                                           "av" if o.PCode == AVATAR else "pr"))
+    tr = sorted(rinv.get(h, 9) for h in w._region_managers)
+    return "L[%s] T[%s]" % (" ".join(objs), ",".join(str(r) for r in tr))
 
 
 def check_clauses(impl, spec):
@@ -553,7 +619,7 @@ def check_futures(impl, e):
 def check_history(hist, loop, want_obs=False):
     """Impl-level oracle: run the history, evaluate the statement after every step.
     Returns (violation dict or None, observations)."""
-    res = {"v": None, "obs": []}
+    res = {"v": None, "obs": [], "ref": []}
 
     async def go():
         impl = Impl()
@@ -579,6 +645,7 @@ def check_history(hist, loop, want_obs=False):
             spec.step(e)
             if want_obs:
                 res["obs"].append(impl.observe())
+                res["ref"].append((spec.observe(), impl_ref_observe(impl)))
             c = check_clauses(impl, spec) or check_futures(impl, e)
             if c:
                 res["v"] = {"clause": c[0], "detail": c[1], "step": i, "event": ev_str(e), "history": hist_str(hist[:i + 1])}
@@ -588,6 +655,8 @@ def check_history(hist, loop, want_obs=False):
                 fut.cancel()
         await asyncio.sleep(0)
     loop.run_until_complete(go())
+    if want_obs == "ref":
+        return res["v"], res["obs"], res["ref"]
     return res["v"], res["obs"]
 
 
@@ -688,6 +757,61 @@ def structured_hist(rng, n):
     return h
 
 
+def deep_hist(rng, n):
+    """reference-set stress over a bigger universe (local ids 1..6, full ids 1..7, strict): build chains with avatars inside
+    and orphans of unknown ids, then kill roots / middles / leaves / unknown parents / id 0 / ids of the other or an
+    untracked region, interleaved with moves, re-announcements, teardown and re-track"""
+    spec = Spec(strict=True)
+    h = [("R", 1)]
+    spec.step(h[0])
+    if rng.random() < 0.6:
+        h.append(("R", 2))
+        spec.step(h[-1])
+    tries = 0
+    while len(h) < n and tries < 60 * n:
+        tries += 1
+        build = len(h) * 5 < n * 2
+        k = rng.choice("FFFFFC" if build else "KKKKKKFFCXRTHP")
+        r = rng.choice((1, 1, 1, 2))
+        if k in "FC":
+            lids = [o["l"] for o in spec.live.values() if o["r"] == r]
+            l = rng.randint(1, 6)
+            f = rng.randint(1, 7)
+            c = rng.random()
+            if c < 0.55 and lids:
+                p = rng.choice(lids[-2:])          # extend the newest chains: deep linksets
+            elif c < 0.75:
+                p = rng.randint(1, 6)              # possibly unknown: an orphan
+            else:
+                p = 0
+            e = (k, r, l, f, p, 1 if rng.random() < 0.25 else 0, rng.randint(1, 2))
+        elif k == "K":
+            lids = [o["l"] for o in spec.live.values() if o["r"] == r]
+            pars = [o["p"] for o in spec.live.values() if o["r"] == r and o["p"] and spec.at(r, o["p"]) is None]
+            c = rng.random()
+            if c < 0.5 and lids:
+                l = rng.choice(lids)
+            elif c < 0.75 and pars:
+                l = rng.choice(pars)               # an unknown id that has orphans
+            elif c < 0.82:
+                l = 0
+            else:
+                l = rng.randint(1, 6)
+            e = (k, rng.choice((r, r, r, 1, 2)), l)
+        elif k == "T":
+            e = (k, r, rng.randint(1, 6), rng.randint(1, 2))
+        elif k == "H":
+            e = (k, r, rng.randint(1, 6), rng.randint(1, 2), rng.randint(1, 2))
+        elif k == "P":
+            e = (k, rng.randint(1, 7), rng.randint(1, 2))
+        else:
+            e = (k, r)
+        if spec.input_ok(e):
+            h.append(e)
+            spec.step(e)
+    return h
+
+
 def small_alphabet(scope):
     """event alphabet of the exhaustive scopes"""
     ev = []
@@ -698,6 +822,7 @@ def small_alphabet(scope):
                 for p in (0, 1, 2, 3):
                     ev.append(("F", 1, l, f, p, 1 if f == 3 else 0, 1))
             ev.append(("K", 1, l))
+        ev.append(("K", 1, 0))
         ev += [("F", 2, 1, 1, 0, 0, 1), ("F", 2, 2, 2, 1, 0, 1), ("X", 1), ("R", 1), ("Q", 1, 1), ("S", 1, 2)]
     elif scope == "all-kinds":
         for r in (1, 2):
@@ -774,6 +899,8 @@ def gen_cases(ctx):
         cases.append(("structured", structured_hist(rng, rng.choice((15, 30, 45)))))
     for _ in range(ctx.pick(150, 2500)):
         cases.append(("rand-statement-assumption-only", rand_hist(rng, 25, False)))
+    for _ in range(ctx.pick(220, 4000)):
+        cases.append(("deep-linksets", deep_hist(rng, rng.choice((20, 35, 50)))))
     return cases, {"one-region": c1, "all-kinds": c2}
 
 
@@ -854,13 +981,29 @@ def _correspond(ctx, loop):
         uniq.append((kind, h, s))
         dist[kind] = dist.get(kind, 0) + 1
     model = ctx.run_driver([s for _, _, s in uniq])
+    refm = ctx.run_driver(["REF " + s for _, _, s in uniq])
+    ref = CorrResult(
+        suite="reference set: extracted ref_step (Coq) vs Spec (Python transcription) vs real managers",
+        rule="the same histories (corpus, exhaustive scopes, random, structured, statement-assumption-only, plus deep-linksets: "
+             "local ids 1..6 x full ids 1..7, chains with avatars inside, orphans of unknown ids, kills of roots / middles / "
+             "unknown parents / id 0 / ids of another or an untracked region, moves, teardown); after every step three "
+             "observations are compared as strings: the reference state of the extracted Coq ref_step (live full ids with region, "
+             "local id, parent id, avatar flag; tracked regions), the state of harness Spec (its literal Python transcription, "
+             "which also drives the generators and the impl-level oracle), and the full-id lookup + tracked regions of the real "
+             "ClientWorldObjectManager; non-trivial = history with a KillObject that removes at least two objects or kills "
+             "through an unknown parent id")
     steps = 0
     nontriv = 0
     vio_seen = {}
     n_vio = {}
-    for (kind, h, s), mline in zip(uniq, model):
+    rsteps = 0
+    rnontriv = 0
+    rdist = {"kills": 0, "kills_removing_0": 0, "kills_removing_1": 0, "kills_cascading": 0, "kills_unknown_id_with_victims": 0,
+             "kills_sparing_avatar_child": 0, "teardowns_removing": 0}
+    for (kind, h, s), mline, rline in zip(uniq, model, refm):
         mo = mline.split(" | ")
-        v, io = check_history(h, loop, want_obs=True)
+        ro = rline.split(" | ") if rline else []
+        v, io, refs = check_history(h, loop, want_obs="ref")
         steps += len(io)
         if any(e[0] in ("F", "C", "D") and e[4] for e in h):
             nontriv += 1
@@ -871,6 +1014,39 @@ def _correspond(ctx, loop):
                 if len(res.disagreements) < 20:
                     res.disagreements.append({"kind": kind, "history": hist_str(h[:i + 1]), "step": i, "impl": a, "model": b})
                 break
+        # the reference, three ways
+        interesting = False
+        prev = None
+        for i, (sp, im) in enumerate(refs):
+            c = ro[i] if i < len(ro) else "<none>"
+            rsteps += 1
+            if c != sp or c != im:
+                if len(ref.disagreements) < 20:
+                    ref.disagreements.append({"kind": kind, "history": hist_str(h[:i + 1]), "step": i, "coq_ref": c,
+                                              "python_ref": sp, "impl": im,
+                                              "differs": "coq-vs-python" if c != sp else "reference-vs-impl"})
+                break
+            e = h[i]
+            if prev is not None and e[0] in ("K", "X"):
+                before = _parse_ref(prev)
+                after = _parse_ref(sp)
+                gone = [f for f in before if f not in after]
+                if e[0] == "K":
+                    rdist["kills"] += 1
+                    rdist["kills_removing_0" if not gone else "kills_removing_1" if len(gone) == 1 else "kills_cascading"] += 1
+                    target = [f for f, o in before.items() if o[0] == e[1] and o[1] == e[2]]
+                    if gone and not target:
+                        rdist["kills_unknown_id_with_victims"] += 1
+                    lg = set(before[f][1] for f in gone)
+                    if any(o[3] and o[0] == e[1] and o[2] in lg and f not in gone for f, o in before.items()):
+                        rdist["kills_sparing_avatar_child"] += 1
+                    if len(gone) >= 2 or (gone and not target):
+                        interesting = True
+                elif gone:
+                    rdist["teardowns_removing"] += 1
+            prev = sp
+        if interesting:
+            rnontriv += 1
         if v and v.get("class") != "harness":
             cls = vclass(v)
             n_vio[cls] = n_vio.get(cls, 0) + 1
@@ -885,7 +1061,33 @@ def _correspond(ctx, loop):
     res.distribution = dict(dist, histories=len(uniq), exhaustive_complete=complete, violating_histories_by_class=n_vio)
     res.exhaustive = False
     res.samples = [{"kind": k, "history": s} for k, _, s in uniq[:2] + uniq[len(uniq) // 2:len(uniq) // 2 + 2] + uniq[-2:]]
-    return res
+    ref.evaluations = rsteps
+    ref.distinct_nontrivial = rnontriv
+    ref.distribution = dict(rdist, histories=len(uniq))
+    ref.exhaustive = False
+    ref.samples = [{"kind": k, "history": s, "coq_ref_end": (r.split(" | ")[-1] if r else "")}
+                   for (k, _, s), r in list(zip(uniq, refm))[-3:]]
+    ctx.notes.append(
+        "reference-set clause: C14_reference_exact / _set / _local_lookup (Qed, closed) prove that after every history inside "
+        "input_full_ok the model's full-id lookup equals ref_set h as a finite map full id -> (region, local id, parent id, "
+        "avatar?) and that its local-id lookup is the reference's at(); C14_reference_exact_nokill needs only input_idx_ok for "
+        "kill-free histories; ref_set is tied to the code three ways by the 'reference' suite (%d step comparisons: extracted "
+        "ref_step = Python Spec = real _fullid_lookup/_region_managers), and Spec is the transcription that generates and judges "
+        "every history" % rsteps)
+    return [res, ref]
+
+
+def _parse_ref(sp):
+    """'L[f(rR lL pP av) ...] T[..]' -> {f: (r, l, p, avatar?)}"""
+    out = {}
+    body = sp[2:sp.index("] T[")]
+    for tok in body.replace(") ", ")|").split("|"):
+        if not tok:
+            continue
+        f, rest = tok.split("(", 1)
+        ws = rest.rstrip(")").split()
+        out[int(f)] = (int(ws[0][1:]), int(ws[1][1:]), int(ws[2][1:]), ws[3] == "av")
+    return out
 
 
 def search(ctx, hints):
